@@ -184,7 +184,24 @@ Fixpoint ord_table (tab : list ((list nat * list nat) * list nat)) (a b : list n
   | ((a', b'), r) :: t => if list_eqb a a' && list_eqb b b' then r else ord_table t a b
   end.
 
+(* An entry with an EMPTY index list (the propagator of a GLOBALPHASE gate: a scalar matrix) is a scalar factor:
+   the repaired _gate_sequence_product takes these entries out, multiplies the others and scales the result
+   (phase * U_overall).  In a formal circuit such an entry is the gate (id, []): the scalar on no qubit.
+   (The unchanged code raised ValueError here: [gsp] alone, with its guard [nonempty_inds].) *)
+Definition is_empty (g : nat * list nat) : bool := match snd g with [] => true | _ => false end.
+Definition gsp_any (ord : list nat -> list nat -> list nat) (fuel : nat) (gates : list (nat * list nat))
+  : option (fcirc * list nat) :=
+  if nonempty_inds gates then gsp ord fuel gates else
+  let phases := filter is_empty gates in
+  match filter (fun g => negb (is_empty g)) gates with
+  | [] => Some (phases, [])
+  | ne => match gsp ord fuel ne with
+          | Some (c, inds) => Some (c ++ phases, inds)
+          | None => None
+          end
+  end.
+
 (* gate_sequence_product(U_list, inds_list=..., expand=True) for index lists [l] (entry i has id i) *)
 Definition number {A} (l : list A) : list (nat * A) := combine (seq 0 (length l)) l.
 Definition gsp_top (ord : list nat -> list nat -> list nat) (l : list (list nat)) : option (fcirc * list nat) :=
-  gsp ord (S (length l)) (number l).
+  gsp_any ord (S (length l)) (number l).
